@@ -15,7 +15,9 @@ claim("C18", "proof",
       "in every order, the classes are sorted, disjoint, non-empty, their union is the union of the ranges, each class is "
       "inside or outside each range, each range is a union of classes, each rune selects at most one class. The model is tied "
       "to DisjunctRangeSet.AddRange by running both on the same random interval sequences (verifdump ranges vs the extracted "
-      "model) and the property oracle is also evaluated on the Go output alone.",
+      "model) and the property oracle is also evaluated on the Go output alone. The code that FEEDS a lexer state's expected literals and "
+      "ranges into the set is covered at state level: the verified lexer-generator model computes each state's classes as the model's classes "
+      "of the terminals its items expect, and its DFA must equal gocc's on grammars over alphabets with code points equal modulo 256/65536.",
       "Coq kernel; extraction (ExtrOcamlBasic only); verifdump hook prints AddRange results faithfully; int32 vs Z (no rune near MaxInt32).",
       "Rocq proof by induction on the class list + extracted-model differential correspondence", "6 C18")
 
@@ -39,14 +41,17 @@ claim("C02", "proof",
       "generated loop) returns a nil error only on sentences (Sound), accepts every sentence within tree-size+1 steps (Complete) and never "
       "panics. On every run the validator is evaluated by the Coq kernel (vm_compute) on gocc's own item sets, FIRST sets and the tables "
       "read back from the compiled parser for each conflict-free grammar of the run, which instantiates the theorems to gocc's output for all "
-      "token sequences; the compiled parser is also compared with the extracted model and with an independent Earley recogniser.",
+      "token sequences; the compiled parser is also compared with the extracted model and with an independent Earley recogniser, including "
+      "sentences of about 1500 tokens built by iterated recursion (deep stacks, long lists) with near misses. For EVERY grammar: LR/Gen.v, a "
+      "Gallina model of gocc's generator proved to output only tables that pass the validators, is compared with gocc on every grammar of the run.",
       LR_NOTE + " Termination on non-sentences: proved only when LR/ErrorPos.v is present; otherwise covered by the correspondence run (partial).",
       "Rocq proof (LR soundness+completeness for validated tables) + kernel-evaluated translation validation of gocc's tables + differential correspondence", "6 C02")
 claim("C03", "proof",
       "Coq theorems (Properties/C03.v): when Parse succeeds, value and action log are exactly the post-order evaluation of the actions over a "
       "parse tree of the input (each action once per node, children's attributes in order, terminals carry the scanner's token object, default "
       "= first attribute, empty = nil); a failing action ends the parse with that error and no further action. Same R/K ties as C02 with "
-      "logging actions using $i, $Ti, $Context and a chosen failing call; an implementation-only oracle checks log/result consistency.",
+      "logging actions using $i, $Ti, $Context and a chosen failing call, on grammars without AND with error-recovery alternatives (an "
+      "action's error must not be recovered from); an implementation-only oracle checks log/result consistency and the failing-call clause.",
       LR_NOTE, "Rocq proof (stack invariant carrying ghost trees and threaded evaluation) + translation validation + differential correspondence", "6 C03")
 
 claim("C15", "proof",
@@ -56,7 +61,8 @@ claim("C15", "proof",
       "vm_compute, so the Sound (LR/SoundGated.v) / Complete theorems (Properties/C15.v) hold for these very tables: for ALL token sequences, accepted <=> sentence of the spec, "
       "reductions are productions of the spec (the tables' productions are matched one-to-one with the spec's by head and body). The real "
       "front-end Parse loop (after the fix gating recovery on canRecover) is compared with the model on derivations of the spec and their "
-      "mutations; Earley on the spec is the oracle.",
+      "mutations, and on constructed sentences with bracket nesting up to 3000 (thorough 8000) and lists of 2500 tokens with near misses; "
+      "Earley on the spec is the oracle (membership by construction for the long ones).",
       LR_NOTE + " The spec file is read by a small tokenizer; annotations come from an untrusted Python LR(1) construction and are checked by the validator.",
       "kernel-evaluated verified validator on the shipped tables vs the documented grammar (Rocq) + differential correspondence of the real loop", "6 C15")
 
@@ -65,16 +71,19 @@ claim("C19", "proof",
       "text handed to the scanner is the code kept verbatim at its own offsets and everything else blanked; UNCONDITIONALLY (every rune "
       "string) length and newline positions are preserved, so every rune keeps offset, line and column. Tied to the code by running loadMd "
       "(tagged export) and the extracted model on random documents, and by running the real binary on x.md vs the concatenated blocks "
-      "(identical packages, same exit status) and on planted syntax errors (reported line:column = markdown position).",
-      "Coq kernel; hand-written model tied by differential testing; blocks on their own lines (splits inside a token are outside the property).",
+      "(identical packages, same exit status; LF and CR LF documents, actions written over several lines, prose with Unicode white space) "
+      "and on planted syntax errors (reported line:column = markdown position). One known finding (a fence boundary inside a token that "
+      "spans lines) is reported as KNOWN-FINDING on a fixed witness.",
+      "Coq kernel; hand-written model tied by differential testing; random documents cut between tokens only (the known finding covers cuts inside a token).",
       "Rocq proof (structural recursion on the rune list) + extracted-model correspondence + tool-level metamorphic run", "6 C19")
 claim("C20", "proof",
       "Coq theorems (Properties/C20.v): for every valid Go rune literal (specification written from the Go language spec) the decoder "
       "shared by gocc and the generated util package returns Go's code point; every spelling of every code point decodes to it; uint32 "
       "arithmetic never wraps. Tied to the code by comparing the model with util.LitToRune and with the compiled generated util.RuneValue "
       "on every spelling of the code points of the run (exhaustive over all 1,112,064 scalar values in the thorough tier) and on malformed "
-      "literals, by comparing the specification with strconv.UnquoteChar, by textual identity of the two Go copies, and IntValue/UintValue "
-      "with strconv on boundary decimals.",
+      "literals, by comparing the specification with strconv.UnquoteChar, by textual identity of the two Go copies, IntValue/UintValue "
+      "with strconv on boundary decimals, and END TO END: grammars with every spelling of boundary/random code points and ranges must be "
+      "accepted and the emitted lexer must branch on exactly Go's code point.",
       "Coq kernel; strconv is the reference for Go semantics; two compiler implementation restrictions (raw NUL, raw U+FEFF) excluded.",
       "Rocq proof (symbolic over digits, lia) + exhaustive/finite correspondence of extracted model, Go decoder, generated decoder and strconv", "6 C20")
 
@@ -92,14 +101,15 @@ claim("C06", "proof",
       "error carries the first token that makes the consumed prefix non-viable, the prefix is viable, the expected list is exactly the set of "
       "viable continuations in terminal order, and no shift/reduce/action ran with that token as look-ahead; plus termination on every input. "
       "Both checks are evaluated by the Coq kernel on gocc's own tables and item sets (gocc's item order) per grammar; compiled parser vs model "
-      "on non-sentences; Earley prefix-viability oracle on the implementation's error token and expected list.",
+      "on non-sentences (a part of the grammars also generated with -zip); Earley prefix-viability oracle on the implementation's error token "
+      "and expected list.",
       LR_NOTE, "Rocq proof (item validity along the stack, canonical LR(1)) + kernel-evaluated translation validation + Earley oracle", "6 C06")
 claim("C10", "proof",
       "Coq theorems (Properties/C10.v) over a model of Symbols/TokenMap numbering: the terminal list is duplicate-free, numbers are "
-      "positions, name<->number lookups are mutually inverse, unknown names map to 0, INVALID=0/EOF=1 (grammars naming a production INVALID "
-      "are now rejected: fix). Tied to the code by evaluating the extracted model on each grammar's productions and comparing with gocc's "
+      "positions, name<->number lookups are mutually inverse, unknown names map to 0 (the keyword empty included: fix), INVALID=0/EOF=1 "
+      "(grammars naming a production INVALID are now rejected: fix). Tied to the code by evaluating the extracted model on each grammar's productions and comparing with gocc's "
       "TokenMap, by compiling the generated token package and evaluating Id/Type for every number and for unknown names, and by scanning "
-      "every terminal's lexeme with the generated lexer; three configurations and hostile spellings.",
+      "every terminal's lexeme with the generated lexer; four configurations (with -v), hostile spellings, unused lexical tokens, a grammar with 300 tokens.",
       "Coq kernel; model tied by differential testing; names compared as UTF-8 strings.",
       "Rocq proof (list-based numbering) + extracted-model correspondence + evaluation of the generated packages", "6 C10")
 claim("C11", "proof",
@@ -158,7 +168,8 @@ claim("C07", "proof",
       "list, skipping starts with the offending token); tokens reach actions at most once and in input order; on sentences the error "
       "alternatives are inert (result = post-order evaluation, Error() never entered); termination for conflict-free canonical tables (a "
       "looping non-canonical table is exhibited). Validator conditions evaluated by the Coq kernel on gocc's tables per grammar; compiled "
-      "parser vs model on valid, singly and multiply erroneous inputs; oracle: no panic/hang, token order, inertness.",
+      "parser vs model on valid, singly and multiply erroneous inputs (a part of the grammars also generated with -zip); oracle: no "
+      "panic/hang, token order, inertness.",
       LR_NOTE + " 'error' occurs only as first symbol of an alternative.",
       "Rocq proof (structural stack invariant through recovery, progress after recovery) + kernel-evaluated translation validation + differential correspondence", "6 C07")
 claim("C09", "other",
@@ -174,7 +185,7 @@ claim("C13", "proof",
       "comments) inserted at any token boundary leaves the token list (types and literals) unchanged; every spelling of a character literal "
       "decodes to the same code point; a string literal's symbol is the text between its quotes. The model is tied to the scanner by "
       "comparing token streams (type, literal, offset, line, column, error count) on grammar files and byte-level mutations; the real binary "
-      "is run on respelled files (layout, character-literal spellings, quoting style) and all generated Go files must be byte-identical; an "
+      "is run on respelled files (layout incl. the end of the file, character-literal spellings, quoting style) and all generated Go files must be byte-identical; an "
       "inventory obligation checks that no generator reads the original bytes of a character literal.",
       "Coq kernel; scanner modelled by hand (tables for unicode.IsLetter etc. generated from the toolchain); layout only at token boundaries.",
       "Rocq proof (simulation between scanner runs) + extracted-model correspondence + metamorphic run of the tool", "6 C13")
